@@ -301,6 +301,14 @@ def check_bank(ctx, F, S, np, cfg, bad, deep=True):
         warnings.simplefilter("ignore")
         try:
             bank = build(F, cfg)
+        except ValueError as e:
+            if "NaN" in str(e) and cfg["cls"] in ("gabor", "gammatone"):
+                # a filter so narrow-band that its impulse response never exceeds the support threshold:
+                # the temporal support (C07's subject) is sqrt(negative); the bank cannot be built
+                ctx.count("bank:not-constructible-nan-temporal-support")
+                return None
+            chk("constructible", False, error="%s: %s" % (type(e).__name__, e))
+            return None
         except Exception as e:  # noqa: BLE001
             chk("constructible", False, error="%s: %s" % (type(e).__name__, e))
             return None
@@ -507,6 +515,8 @@ def bank_goals(ctx, F, S, np, cfg, bank, G):
     base = dict(config=short(cfg))
     heavy = cfg["scale"]["name"] == "bark" and cls in ("gabor", "gammatone")
     idxs = sorted(set([0, n - 1, r.randrange(n)]))
+    if not ctx.thorough:
+        idxs = sorted(set([r.choice([0, n - 1]), r.randrange(n)]))
     if heavy:
         idxs = idxs[:1]
     # effective upper edge (default / clipping logic of the constructor)
@@ -523,7 +533,7 @@ def bank_goals(ctx, F, S, np, cfg, bank, G):
     for i in idxs:
         G.near(T.center(i), cen[i], tol(cen[i]), CERT, dict(kind="center", filt=i, value=cen[i], **base), 9 if heavy else 1)
         for end in (0, 1):
-            if heavy and end:
+            if heavy and (end or not ctx.thorough):
                 continue
             G.near(T.support(i, end), sup[i][end], tol(sup[i][end]), CERT,
                    dict(kind="support", filt=i, end=end, value=sup[i][end], **base), 30 if heavy else 1)
@@ -567,7 +577,7 @@ def bank_goals(ctx, F, S, np, cfg, bank, G):
                 warnings.simplefilter("ignore")
                 res = bank.get_frequency_response(i, width)
             kc = int(round(cen[i] * width / rate)) % width
-            for k in sorted(set([kc, (kc + 1) % width, (kc - 2) % width, r.randrange(width)]))[:3]:
+            for k in sorted(set([kc, (kc + 1) % width, (kc - 2) % width, r.randrange(width)]))[:ctx.scale(2, 3)]:
                 v = float(res[k])
                 term = "(gabor_freq_resp %s %s %s %s %s (%d)%%Z (%d)%%Z)" % (
                     b(cfg["l2"]), std, cang, T.g_supp_ang(i, 0), T.g_supp_ang(i, 1), width, k)
@@ -615,10 +625,12 @@ def bank_goals(ctx, F, S, np, cfg, bank, G):
         warnings.simplefilter("ignore")
         res = bank.get_frequency_response(i, width)
     kc = int(round(cen[i] * width / rate)) % width
-    lp = math.floor(sup[i][0] / rate) - 1
-    rp = math.ceil(sup[i][1] / rate) + 1
-    if rp - lp <= 6:
-        for k in sorted(set([kc, (kc + 1) % width, r.randrange(width)]))[:2]:
+    # the implementation sums periods floor(left/2pi) .. ceil(right/2pi); a superset is sound here
+    xl, xr = sup[i][0] / rate, sup[i][1] / rate
+    lp = math.floor(xl) - (1 if xl - math.floor(xl) < 1e-9 else 0)
+    rp = math.ceil(xr) + (1 if math.ceil(xr) - xr < 1e-9 else 0)
+    if rp - lp <= 4:
+        for k in sorted(set([kc, r.randrange(width)]))[:ctx.scale(1, 2)]:
             v = float(abs(res[k]))
             if not math.isfinite(v):
                 continue
@@ -693,7 +705,7 @@ def run(ctx):
     G = Goals()
     # ---- banks: search on every one, certified comparison on a subset
     nb = ctx.scale(70, 700)
-    ncert = ctx.scale(36, 300)
+    ncert = ctx.scale(28, 300)
     classes = ["tri", "fbank", "gabor", "gammatone"]
     scales = ["mel", "bark", "linear", "octave"]
     for j in range(nb):
@@ -735,7 +747,7 @@ def run(ctx):
             bad.append(("valid_range_failed", dict(range=g, outcome=out)))
         if out in ("accept", "reject"):
             exp = out
-            if nguard < ctx.scale(200, 1500) and ok_gen:
+            if nguard < ctx.scale(120, 1500) and ok_gen:
                 G.raw(guard_goal(g, exp), dict(kind="range", range=g, outcome=exp))
                 nguard += 1
     ctx.cov["rule"] = (
